@@ -135,6 +135,9 @@ pub enum CloneMode {
     Swap,
     /// keep both: the clone becomes a further side
     Fork,
+    /// `target.clone_from(&cache)` into an existing, pre-filled cache with
+    /// enough capacity; the result is judged like a clone and dropped
+    From,
 }
 
 #[derive(Clone, Debug, PartialEq, Eq, Hash)]
@@ -439,7 +442,7 @@ impl Op {
                     match rest { Rest::Stop => "stop", Rest::Front => "front", Rest::Back => "back", Rest::Alternate => "alternate" },
                     match fate { Fate::Drop => "drop", Fate::Forget => "forget" }),
             Op::Clone(m) => format!("clone {}",
-                match m { CloneMode::Check => "check", CloneMode::Swap => "swap", CloneMode::Fork => "fork" }),
+                match m { CloneMode::Check => "check", CloneMode::Swap => "swap", CloneMode::Fork => "fork", CloneMode::From => "from" }),
             Op::InsertMany { count, vheap } => format!("insert_many {} {}", count, vheap),
             Op::Churn { rounds, which } => format!("churn {} {}", rounds, which),
             Op::Side(n) => format!("side {}", n),
@@ -515,6 +518,7 @@ impl Op {
             },
             "clone" => Op::Clone(match *t.get(1)? {
                 "check" => CloneMode::Check, "swap" => CloneMode::Swap, "fork" => CloneMode::Fork,
+                "from" => CloneMode::From,
                 _ => return None,
             }),
             "insert_many" => Op::InsertMany { count: t.get(1)?.parse().ok()?, vheap: t.get(2)?.parse().ok()? },
@@ -799,7 +803,7 @@ fn dec_op(c: &mut Cursor) -> Option<Op> {
             Op::IterWalk { kind, calls, rest, fate }
         },
         24 => Op::Debug,
-        25 => Op::Clone(match c.u8()? % 3 { 0 => CloneMode::Check, 1 => CloneMode::Swap, _ => CloneMode::Fork }),
+        25 => Op::Clone(match c.u8()? % 4 { 0 => CloneMode::Check, 1 => CloneMode::Swap, 2 => CloneMode::Fork, _ => CloneMode::From }),
         26 => Op::Scalars,
         27 => Op::InsertMany { count: c.u8()? as u16, vheap: c.u8()? as u16 },
         28 => Op::Churn { rounds: c.u8()? as u16, which: c.u8()? % 3 },
@@ -856,7 +860,7 @@ fn enc_op(op: &Op, out: &mut Vec<u8>) {
             out.push(r | (f << 2));
         },
         Op::Debug => out.push(24),
-        Op::Clone(m) => { out.push(25); out.push(match m { CloneMode::Check => 0, CloneMode::Swap => 1, CloneMode::Fork => 2 }); },
+        Op::Clone(m) => { out.push(25); out.push(match m { CloneMode::Check => 0, CloneMode::Swap => 1, CloneMode::Fork => 2, CloneMode::From => 3 }); },
         Op::Scalars => out.push(26),
         Op::InsertMany { count, vheap } => { out.push(27); out.push((*count).min(255) as u8); out.push((*vheap).min(255) as u8); },
         Op::Churn { rounds, which } => { out.push(28); out.push((*rounds).min(255) as u8); out.push(*which % 3); },
